@@ -21,6 +21,7 @@ GEN = dict(BASE, OpsA={"sendall", "sendall_err", "send", "close", "shutdown_writ
            FixRace=False, FixSendall=False, FixCredit=False)
 SPIN = "pinned loop: send() == 0 is not an exit (sendall after shutdown_write)"
 LIVE = dict(spec="FairSpec", properties=["Progress"])
+SHUT = dict(spec="FairSpec", properties=["ShutEndsSends"])     # needs no reader: once closed / shut down for writing, sends in progress end
 
 
 def model(c, runs):
@@ -36,13 +37,22 @@ def model(c, runs):
             dict(name="sensitivity: wait_window_only (the window wait re-tests only the window: a close wakes nobody)", module="Channel",
                  expect="HangFree",
                  cfg=cfg_text(constants=dict(small, UsersA={"a1"}, OpsA={"sendall"}, OpsB={"close"}, Mut="wait_window_only"), invariants=MINVS)),
+            dict(name="pinned _send_eof without notify: a writer parked at window 0 sleeps on after shutdown_write from another thread", module="Channel",
+                 expect="HangFree",
+                 cfg=cfg_text(constants=dict(small, UsersB="@{}", OpsA={"sendall", "shutdown_write"}, Mut="no_eof_notify"), invariants=MINVS)),
             dict(name="liveness: every sendall ends (reader keeps reading; shutdown_write from a second thread)", module="Channel",
                  cfg=cfg_text(constants=dict(BASE, UsersB="@{}", Daemons={"dB_out"}, OpsA={"sendall", "shutdown_write"}, SendN=3), invariants=[], **LIVE)),
             dict(name="simulate (spec -> code)", module="Channel_Gen", simulate=True, expect="behaviours",
-                 cfg=cfg_text(spec="GSpec", constants=dict(GEN, HoldBack=dc.holdback()), invariants=["GenEmit"]),
+                 cfg=cfg_text(spec="GSpec", constants=dict(GEN, **dc.gen_variant()), invariants=["GenEmit"]),
                  kw=dict(workers=1, simulate="num=%d" % (60 if c.quick else 500), extra=["-depth", "150", "-seed", str(c.seed + 1)]))]
     if not c.quick:
         jobs += [
+            dict(name="liveness, pinned _send_eof without notify: the parked sendall never ends (nobody reads)", module="Channel",
+                 expect="<liveness>",
+                 cfg=cfg_text(constants=dict(small, UsersB="@{}", OpsA={"sendall", "shutdown_write"}, Mut="no_eof_notify"),
+                              invariants=[], **SHUT)),
+            dict(name="liveness: the parked sendall ends after shutdown_write / close from another thread although nobody reads", module="Channel",
+                 cfg=cfg_text(constants=dict(small, UsersB="@{}", OpsA={"sendall", "shutdown_write", "close"}), invariants=[], **SHUT)),
             dict(name="liveness, wait_window_only: a parked sendall never ends after close / peer close / loss", module="Channel",
                  expect="<liveness>",
                  cfg=cfg_text(constants=dict(small, UsersB="@{}", Daemons={"dB_out"}, OpsA={"sendall", "close"}, Mut="wait_window_only"),
@@ -64,7 +74,7 @@ def model(c, runs):
                               invariants=MINVS)),
         ]
     res = dc.mc_batch(c, jobs)
-    gen = dict(GEN, HoldBack=dc.holdback())
+    gen = dict(GEN, **dc.gen_variant())
     # RP 1: the spin counterexample on the real code
     prog, plan = dc.plan_from_counterexample(res[SPIN], dict(BASE, SendN=2), U)
     ex = dc.replay_plan(prog, plan, max_steps=1500)
@@ -102,6 +112,8 @@ FIXED = [
     {"threads": {"a1": [("sendall", 40000)], "b1": [("close",)]}},                              # peer CLOSE (as above)
     {"threads": {"a1": [("sendall_err", 40000)], "a2": [("close",)]}},                          # local close() from another thread
     {"threads": {"a1": [("send", 32768), ("send", 5)], "a2": [("close",)]}},                    # plain send parked
+    {"threads": {"a1": [("sendall", 40000)], "a2": [("shutdown_write",)]}},                      # shutdown_write from another thread, nobody reads
+    {"threads": {"a1": [("send", 32768), ("send_err", 5)], "a2": [("shutdown_rw",)]}},          # plain send_stderr parked, shutdown(2)
     {"threads": {"a1": [("sendall", 40000)], "a2": [("shutdown_write",)], "b1": [("recv", 65536)]}},   # shutdown_write, then a window adjust
     {"threads": {"a1": [("sendall", 40000)]}, "lost": ["A"]},                                    # transport loss (_unlink)
     {"threads": {"a1": [("sendall", 40000)], "b1": [("recv", 65536), ("recv", 65536)]}},        # window adjust: completes
@@ -141,12 +153,18 @@ def describe(clause, it, evs, l):
     fin = it["verdict"]["final"]
     if clause == "P_NoHangInWindowWait":
         s = fin["sides"]
+        if s["A"]["eofSent"] and not s["A"]["closed"]:
+            key = "P_NoHangInWindowWait:shutdown_write"
+            what = ("send/sendall parked in the window wait for good after shutdown_write()/shutdown() from another thread: when the schedule ended "
+                    "%s was still blocked in Channel._wait_for_send_window (window %d) although the channel is shut down for writing - "
+                    "_send_eof sets eof_sent without notifying out_buffer_cv, so the writer neither returns nor raises until the peer happens "
+                    "to adjust the window. Last events: %s | program %r" % ([w["th"] for w in fin["waiting"] if w["at"] == "send_wait"],
+                                                                          s["A"]["outwin"], dc.brief(evs, len(evs)), it["prog"]["threads"]))
+            return key, what, dc.replay_record(it)
         what = ("send/sendall parked in the window wait for good: when the schedule ended %s was still blocked in Channel._wait_for_send_window "
                 "although the channel is closed (A closed=%s, window %d) - woken by the close, it went back to sleep; it neither returns nor "
                 "raises. Last events: %s" % ([w["th"] for w in fin["waiting"] if w["at"] == "send_wait"], s["A"]["closed"], s["A"]["outwin"],
                                             dc.brief(evs, len(evs))))
-    elif clause == "C_parked_after_shutdown_write":
-        what = "a sender parked in the window wait stays parked after shutdown_write() from another thread (nothing notifies the condition); program %r" % (it["prog"]["threads"],)
     elif clause == "P_SendallNoSpin":
         what = ("sendall never returns: thread(s) %s still looping on send() == 0 when the step budget ended, nothing handed to the transport. "
                 "Last events: %s" % (", ".join(fin["spinning"]), dc.brief(evs, len(evs))))
@@ -183,5 +201,4 @@ def run(c):
               "with bounded preemptions (capped) + seeded random schedules; distinct = (program, schedule)" % (nb, differ, explored, len(progs)))
     c.assumptions = ["'handed to the transport' = Transport._send_user_message was called with the bytes (a dead transport drops them there)",
                      "'shut down for writing / closed' is judged from the wire: the side's EOF or CLOSE had been handed over before the call started",
-                     "non-termination is observed as a bounded number (step budget 1500) of iterations without any hand-over, or as a schedule that ends (no thread can run, no timeout pending) with a sender still parked in the window wait of a closed channel",
-                     "a sender parked when ANOTHER thread calls shutdown_write() is not required to wake before the window moves (reported as conformance note C_parked_after_shutdown_write)"]
+                     "non-termination is observed as a bounded number (step budget 1500) of iterations without any hand-over, or as a schedule that ends (no thread can run, no timeout pending) with a sender still parked in the window wait of a closed channel"]
